@@ -1221,3 +1221,412 @@ func sentinelExactIn(p *load.Program, r *kit.Report, rule string, fs []*ssa.Func
 		r.OKTrivial(rule, "sentinel-tests/none", "-", "no -1-sentinel result is compared with a constant in the call trees of this property's entry points")
 	}
 }
+
+// checkStopBeforeShutdown (C16): when BlockManager.Run ends, Stop (which cancels every registered
+// downloader and interrupts its thread) runs before shutdown (which waits until the downloader list
+// is empty). The other order waits for downloads nobody told to end: Run never returns while a
+// download is in flight.
+func checkStopBeforeShutdown(p *load.Program, r *kit.Report, rule string) {
+	f := fn(p, r, rule, R, "BlockManager.Run")
+	if f == nil {
+		return
+	}
+	key := "BlockManager.Run/stop-before-shutdown"
+	stopID, shutID := R+".BlockManager.Stop", R+".BlockManager.shutdown"
+	// deferred work in registration order
+	var defers []*ssa.Defer
+	for _, b := range f.DomPreorder() {
+		for _, in := range b.Instrs {
+			if d, ok := in.(*ssa.Defer); ok {
+				defers = append(defers, d)
+			}
+		}
+	}
+	var seq []string // order of execution at exit
+	for i := len(defers) - 1; i >= 0; i-- {
+		d := defers[i]
+		switch id := kit.CallID(d); id {
+		case stopID:
+			seq = append(seq, "Stop")
+			continue
+		case shutID:
+			seq = append(seq, "shutdown")
+			continue
+		}
+		if mc, ok := d.Call.Value.(*ssa.MakeClosure); ok {
+			if g, ok := mc.Fn.(*ssa.Function); ok {
+				st, sh := kit.CallsTo(g, stopID), kit.CallsTo(g, shutID)
+				switch {
+				case len(st) > 0 && len(sh) > 0:
+					if kit.Reach(g, kit.After(sh[0].(ssa.Instruction)), kit.Opts{}).Has(st[0].(ssa.Instruction)) {
+						seq = append(seq, "shutdown", "Stop")
+					} else {
+						seq = append(seq, "Stop", "shutdown")
+					}
+				case len(st) > 0:
+					seq = append(seq, "Stop")
+				case len(sh) > 0:
+					seq = append(seq, "shutdown")
+				}
+			}
+		}
+	}
+	first := func(name string) int {
+		for i, s := range seq {
+			if s == name {
+				return i
+			}
+		}
+		return -1
+	}
+	si, hi := first("Stop"), first("shutdown")
+	pos := posOf(p, f.Blocks[0].Instrs[0])
+	switch {
+	case hi < 0:
+		r.Unknown(rule, key, pos, "no deferred shutdown in BlockManager.Run (exit sequence: %v)", seq)
+	case si < 0 || si > hi:
+		r.Bad(rule, key, pos, "at the end of Run shutdown (wait until no downloader is registered) runs before Stop (cancel the downloaders, interrupt their threads) — exit sequence %v: with a download in flight nobody ends it, the list never empties and Run never returns", seq)
+	default:
+		r.OK(rule, key, pos, "exit sequence %v", seq)
+	}
+}
+
+// checkAbortThenWait (C05): after synchronizeBlocks closed `abort` for an orphaned block it keeps
+// waiting for the request's completion value (the block manager answers BlockAborted on the
+// unbuffered `complete` channel). Returning without reading it leaves processRequest blocked on
+// that send for ever: the next round's request is queued behind it and never served.
+func checkAbortThenWait(p *load.Program, r *kit.Report, rule string) {
+	f := fn(p, r, rule, R, "NodeManager.synchronizeBlocks")
+	if f == nil {
+		return
+	}
+	key := "synchronizeBlocks/abort-then-wait-for-completion"
+	var add *ssa.Call
+	for _, c := range kit.CallsTo(f, R+".BlockManager.AddRequest") {
+		add, _ = c.(*ssa.Call)
+	}
+	if add == nil {
+		r.Unknown(rule, key, "-", "no AddRequest call in synchronizeBlocks")
+		return
+	}
+	isRes := func(v ssa.Value, i int) bool {
+		e, ok := kit.Strip(v).(*ssa.Extract)
+		return ok && e.Tuple == ssa.Value(add) && e.Index == i
+	}
+	var closes []ssa.Instruction
+	kit.AllInstrs(f, func(in ssa.Instruction) {
+		if c, ok := in.(*ssa.Call); ok && kit.CallID(c) == "builtin.close" && len(c.Call.Args) == 1 && isRes(c.Call.Args[0], 1) {
+			closes = append(closes, in)
+		}
+	})
+	if len(closes) == 0 {
+		r.Unknown(rule, key, posOf(p, add), "abort is never closed")
+		return
+	}
+	var got []kit.Edge
+	for _, b := range f.Blocks {
+		ifi, ok := b.Instrs[len(b.Instrs)-1].(*ssa.If)
+		if !ok {
+			continue
+		}
+		bo, ok := ifi.Cond.(*ssa.BinOp)
+		if !ok || bo.Op != token.EQL {
+			continue
+		}
+		ex, ok := bo.X.(*ssa.Extract)
+		if !ok || ex.Index != 0 {
+			continue
+		}
+		sel, ok := ex.Tuple.(*ssa.Select)
+		if !ok {
+			continue
+		}
+		k, isC := kit.ConstInt(bo.Y)
+		if !isC || k < 0 || int(k) >= len(sel.States) {
+			continue
+		}
+		if st := sel.States[k]; st.Dir == types.RecvOnly && isRes(st.Chan, 0) {
+			got = append(got, kit.Edge{From: b, Succ: 0})
+		}
+	}
+	var recvs []ssa.Instruction
+	kit.AllInstrs(f, func(in ssa.Instruction) {
+		if u, ok := in.(*ssa.UnOp); ok && u.Op == token.ARROW && isRes(u.X, 0) {
+			recvs = append(recvs, in)
+		}
+	})
+	bad := ""
+	at := closes[0]
+	for _, cl := range closes {
+		rr := kit.Reach(f, kit.After(cl), kit.Opts{StopAt: kit.InstrSet(recvs...), BlockEdge: kit.EdgeSet(got...)})
+		for _, ret := range kit.Returns(f) {
+			if rr.Has(ret) && rr.ErrClass(ret) != kit.ErrNonNil {
+				at = cl
+				bad = "after closing abort for an orphaned block synchronizeBlocks can end the round without reading the request's completion value (" + rr.PathTo(ret, p.Pos) + "): the block manager stays blocked sending BlockAborted on the unbuffered channel, and the next round's request is never served"
+			}
+		}
+	}
+	r.Check(bad == "", rule, key, posOf(p, at), "every successful end of the round after close(abort) follows the receipt of the completion value", bad)
+}
+
+// checkAnnouncersKept (C06): the announcer list of an entry that other goroutines can already see
+// changes only by appendID / removeID of its previous value — one announcer is added or taken out.
+// Replacing it wholesale (an empty list when a timed-out request is re-issued) forgets the peers
+// that announced the tx while the first request was outstanding: the tx is never offered to them.
+func checkAnnouncersKept(p *load.Program, r *kit.Report, rule string) {
+	nodeIDs := p.Field(R, "TxData", "NodeIDs")
+	if nodeIDs == nil {
+		r.Unknown(rule, "TxData.NodeIDs", "-", "field not found")
+		return
+	}
+	n := 0
+	k := newKeyer()
+	for _, f := range pkgFuncs(p, R) {
+		if f.Blocks == nil || strings.HasSuffix(p.FileOf(f.Pos()), "_test.go") {
+			continue
+		}
+		for _, w := range kit.DirectWrites(f) {
+			if w.Field != nodeIDs || w.Kind != "store" {
+				continue
+			}
+			st, ok := w.Instr.(*ssa.Store)
+			if !ok {
+				continue
+			}
+			if _, isElem := st.Addr.(*ssa.IndexAddr); isElem {
+				continue
+			}
+			_, base := kit.FieldOfAddr(st.Addr)
+			if al, fresh := kit.Strip(base).(*ssa.Alloc); fresh && al.Heap {
+				// an entry under construction in this function (published later): any start value
+				shared := false
+				for _, ref := range *al.Referrers() {
+					if mu, isMu := ref.(*ssa.MapUpdate); isMu && w.Instr.Block() != nil {
+						if kit.Reach(f, kit.After(mu), kit.Opts{}).Has(w.Instr) {
+							shared = true
+						}
+					}
+				}
+				if !shared {
+					continue
+				}
+			}
+			n++
+			key := k.key(kit.ShortID(kit.FuncID(f)) + "/store:NodeIDs")
+			ok2 := false
+			if c := callOf(w.Val, 0); c != nil {
+				id := kit.CallID(c)
+				if (id == R+".appendID" || id == R+".removeID") && len(c.Call.Args) > 0 {
+					if fl, b2 := kit.LoadedField(c.Call.Args[0]); fl == nodeIDs && kit.Strip(b2) == kit.Strip(base) {
+						ok2 = true
+					}
+				}
+			}
+			r.Check(ok2, rule, key, posOf(p, w.Instr), "appendID/removeID of the entry's own list",
+				"the announcer list of a shared entry is replaced by "+describe(kit.Strip(w.Val))+" instead of appendID/removeID of its previous value: the peers that announced the tx while a request was outstanding are forgotten and the tx is never requested from them")
+		}
+	}
+	if n == 0 {
+		r.Unknown(rule, "TxData.NodeIDs/stores", "-", "no store to the announcer list of a shared entry found")
+	}
+}
+
+// checkSplitTableFrozen (C03): the split table (Repository.requiredSplit, Repository.splits) is
+// configuration: after NewRepository built it no field of a Split that the repository holds is
+// written again. A helper that adjusts the Height of its receiver must work on a copy — through a
+// pointer receiver every locator request moves the height at which the required hash is enforced.
+func checkSplitTableFrozen(p *load.Program, r *kit.Report, rule string) {
+	fields := map[*types.Var]bool{}
+	for _, n := range []string{"Name", "BeforeHash", "AfterHash", "Height"} {
+		if f := p.Field(H, "Split", n); f != nil {
+			fields[f] = true
+		}
+	}
+	if len(fields) == 0 {
+		r.Unknown(rule, "Split/fields", "-", "struct Split not found")
+		return
+	}
+	n := 0
+	k := newKeyer()
+	for _, f := range pkgFuncs(p, H) {
+		if f.Blocks == nil || strings.HasSuffix(p.FileOf(f.Pos()), "_test.go") {
+			continue
+		}
+		name := kit.ShortID(kit.FuncID(f))
+		for _, w := range kit.DirectWrites(f) {
+			if w.Field == nil || !fields[w.Field] || w.Kind != "store" {
+				continue
+			}
+			st, ok := w.Instr.(*ssa.Store)
+			if !ok {
+				continue
+			}
+			_, base := kit.FieldOfAddr(st.Addr)
+			n++
+			key := k.key(name + "/write:Split." + w.Field.Name())
+			// a local value (a copy, or a literal under construction)
+			if al, isAlloc := kit.Strip(base).(*ssa.Alloc); isAlloc && (!al.Heap || f.Name() == "NewRepository") {
+				r.OK(rule, key, posOf(p, w.Instr), "written on a local value")
+				continue
+			}
+			if ia, isElem := kit.Strip(base).(*ssa.IndexAddr); isElem && f.Name() == "NewRepository" {
+				_ = ia
+				r.OK(rule, key, posOf(p, w.Instr), "table under construction")
+				continue
+			}
+			r.Bad(rule, key, posOf(p, w.Instr), "%s writes Split.%s through %s, which can be a split the repository holds: the height (or hash) at which the chain split is enforced changes while the repository runs", name, w.Field.Name(), describe(kit.Strip(base)))
+		}
+	}
+	if n == 0 {
+		r.OKTrivial(rule, "Split/no-field-writes", "-", "no field of a Split is written outside composite literals")
+	}
+}
+
+// checkConsolidateIdentity (C11; C12 imports it): the branch Consolidate builds takes the place of
+// `other` (the oldest branch): its parent, firstHeader, parentHeight and offset are other's. The
+// first header names the branch file and its index entry — with the tip branch's first header the
+// consolidated main chain is saved into the overtaking fork's stored file, whose stored parent
+// height Save keeps: the next Load reports a chain that is not linked from genesis.
+func checkConsolidateIdentity(p *load.Program, r *kit.Report, rule string) {
+	f := fn(p, r, rule, H, "Branch.Consolidate")
+	if f == nil {
+		return
+	}
+	key := "Branch.Consolidate/takes-the-place-of-other"
+	pos := posOf(p, f.Blocks[0].Instrs[0])
+	var other *ssa.Parameter
+	for _, prm := range f.Params[1:] {
+		if strings.HasSuffix(prm.Type().String(), "headers.Branch") {
+			other = prm
+		}
+	}
+	if other == nil {
+		r.Unknown(rule, key, pos, "no *Branch parameter")
+		return
+	}
+	idFields := []string{"parent", "firstHeader", "parentHeight", "offset"}
+	// fieldsFrom: for a Branch allocated in g, which of the identity fields are copies of the same
+	// field of src (a pointer, or a struct value)
+	fieldsFrom := func(g *ssa.Function, al *ssa.Alloc, isSrc func(base ssa.Value) bool) (map[string]bool, map[string]string) {
+		okF := map[string]bool{}
+		why := map[string]string{}
+		whole := false
+		for _, ref := range *al.Referrers() {
+			if st, isSt := ref.(*ssa.Store); isSt && st.Addr == ssa.Value(al) {
+				// *t = b (value receiver copied whole) or *t = *src
+				v := kit.Strip(st.Val)
+				if isSrc(v) {
+					whole = true
+				} else if u, isLd := v.(*ssa.UnOp); isLd && u.Op == token.MUL && isSrc(kit.Strip(u.X)) {
+					whole = true
+				}
+			}
+		}
+		for _, n := range idFields {
+			okF[n] = whole
+		}
+		for _, ref := range *al.Referrers() {
+			fa, isFA := ref.(*ssa.FieldAddr)
+			if !isFA || fa.Referrers() == nil {
+				continue
+			}
+			fl, _ := kit.FieldOfAddr(fa)
+			if fl == nil {
+				continue
+			}
+			name := ""
+			for _, n := range idFields {
+				if fl == p.Field(H, "Branch", n) {
+					name = n
+				}
+			}
+			if name == "" {
+				continue
+			}
+			for _, r2 := range *fa.Referrers() {
+				st, isSt := r2.(*ssa.Store)
+				if !isSt || st.Addr != ssa.Value(fa) {
+					continue
+				}
+				sf, sbase := kit.LoadedField(st.Val)
+				if sf == fl && sbase != nil && isSrc(kit.Strip(sbase)) {
+					okF[name] = true
+				} else {
+					okF[name] = false
+					why[name] = describe(kit.Strip(st.Val))
+				}
+			}
+		}
+		return okF, why
+	}
+	bad := ""
+	found := false
+	for _, ret := range kit.Returns(f) {
+		v := kit.RetOperand(ret, 0)
+		if v == nil || kit.IsNilConst(v) {
+			continue
+		}
+		switch x := kit.Strip(v).(type) {
+		case *ssa.Alloc:
+			found = true
+			okF, why := fieldsFrom(f, x, func(b ssa.Value) bool { return b == ssa.Value(other) })
+			for _, n := range idFields {
+				if !okF[n] {
+					bad = "the consolidated branch's " + n + " is " + why[n] + ", not other." + n
+				}
+			}
+		case *ssa.Call:
+			callee := kit.StaticCallee(x)
+			if callee == nil || callee.Blocks == nil || len(x.Call.Args) == 0 {
+				bad = "the consolidated branch comes from an unresolved call"
+				break
+			}
+			found = true
+			// receiver must be other (or *other for a value receiver)
+			recv := kit.Strip(x.Call.Args[0])
+			if u, isLd := recv.(*ssa.UnOp); isLd && u.Op == token.MUL {
+				recv = kit.Strip(u.X)
+			}
+			if recv != ssa.Value(other) {
+				bad = "the consolidated branch is derived from " + describe(recv) + ", not from other"
+				break
+			}
+			var al *ssa.Alloc
+			for _, cr := range kit.Returns(callee) {
+				if a, isA := kit.Strip(kit.RetOperand(cr, 0)).(*ssa.Alloc); isA {
+					al = a
+				}
+			}
+			if al == nil {
+				bad = kit.ShortID(kit.FuncID(callee)) + " does not return a branch it allocates"
+				break
+			}
+			okF, why := fieldsFrom(callee, al, func(b ssa.Value) bool {
+				if b == ssa.Value(callee.Params[0]) {
+					return true
+				}
+				// a value receiver spilled to a local
+				if a2, isA := b.(*ssa.Alloc); isA && !a2.Heap {
+					for _, ref := range *a2.Referrers() {
+						if st, isSt := ref.(*ssa.Store); isSt && st.Addr == ssa.Value(a2) && st.Val == ssa.Value(callee.Params[0]) {
+							return true
+						}
+					}
+				}
+				return false
+			})
+			for _, n := range idFields {
+				if !okF[n] {
+					bad = kit.ShortID(kit.FuncID(callee)) + " does not copy " + n + " from its receiver (" + why[n] + ")"
+				}
+			}
+		default:
+			bad = "the consolidated branch is " + describe(kit.Strip(v))
+		}
+	}
+	if !found && bad == "" {
+		r.Unknown(rule, key, pos, "no branch is returned")
+		return
+	}
+	r.Check(bad == "", rule, key, pos, "parent, firstHeader, parentHeight and offset are other's", bad+": the consolidated main chain is named (and saved) as another branch")
+}
